@@ -15,7 +15,7 @@ from ..ref import linalg as rl
 from .c09 import GEOM, vec_of
 
 PROP = "C11"
-NCASES = {"quick": 6000, "thorough": 120000}
+NCASES = {"quick": 4000, "thorough": 120000}
 BUDGET = {"quick": 75, "thorough": 1200}
 RULE = ("chains L 2-7 (odd/even, open/periodic), random Hermitian site-dependent and "
         "non-exchange-symmetric two-site terms plus one-site terms (array / default-key / "
@@ -394,6 +394,8 @@ def wl_tebd(rng, rec, tier):
             order = int(gen.choice(rng, [1, 2]))     # (15 sweeps per step: bonds of several hundred)
         nmax = 2.0
         targets = sorted(float(x) for x in rng.uniform(0.02, nmax * kw["dt"], size=int(rng.integers(1, 3))))
+        if rng.random() < 0.5:
+            targets = [0.06, 0.13] if rng.random() < 0.5 else [0.1, 0.17]
     tebd = gen.attempt2(qtn.TEBD, psi0, ham, **kw)
     if tebd is gen.REJECTED:
         return {"rejected": "tebd"}
@@ -403,8 +405,12 @@ def wl_tebd(rng, rec, tier):
     if rng.random() < 0.3:
         gen.attempt2(lambda: list(tebd.at_times(targets, order=order)))
     else:
-        for T in targets:
-            if gen.attempt2(tebd.update_to, T, order=order) is gen.REJECTED:
+        for n_, T in enumerate(targets):
+            kw2 = {}
+            if n_ > 0 and "dt" in kw and rng.random() < 0.6:
+                # another step size for this leg, on the same TEBD object
+                kw2["dt"] = float(gen.choice(rng, [0.05, 0.1, 0.07] if cyclic else [0.05, 0.1, 0.03, 0.2]))
+            if gen.attempt2(tebd.update_to, T, order=order, **kw2) is gen.REJECTED:
                 break
     return {"L": L, "cyclic": cyclic, "order": order, "imag": imag, "form": form, "targets": targets,
             "kw": {k: v for k, v in kw.items() if k != "progbar"}}
